@@ -14,6 +14,7 @@ def run(F, R, tier):
     r01_8(duke, R, S)
     r01_10(duke, R, S)
     r01_11(duke, R, S)
+    r01_12(duke, R, S)
     return ("A5 tables against JVMS: class_constants (opcodes, pool tags, handle kinds, atype, attribute names, magic); the second-pass decode table for "
             "all 256 opcode bytes and all 256 wide sub-opcodes (variant, implied index, operand bytes, operand kinds) and its agreement with the "
             "label-creating first pass; switch shapes; PoolRead::read tag->layout->variant->slots and as_X destructuring, method-handle kind table; "
@@ -725,3 +726,53 @@ def r01_11(duke, R, S):
     extra = sorted(set(seen_targets) - {int(k) for k in S["target_types"]})
     R.inst("R01.11", "target-types-no-extra", not extra, got=[hex(x) for x in extra])
     R.floor("R01.11", 9 + 16 + 4 + 13 + 22)
+
+
+# ------------------------------------------------------------------------------------ R01.12
+def r01_12(duke, R, S):
+    """Bytecode offsets that may equal code_length (exclusive range ends) versus offsets of instructions."""
+    R.rule("R01.12", "offsets the JVMS defines as exclusive range ends (exception_table.end_pc 4.7.3; start_pc + length of LocalVariableTable, "
+                     "LocalVariableTypeTable and localvar type-annotation targets 4.7.13/14/20.1) are turned into labels with the check "
+                     "`pc <= code_length`; offsets that must denote an instruction (start_pc, handler_pc, line numbers, frame offsets, branch "
+                     "targets) with `pc < code_length`; the two Labels checks compare against code_length with exactly these operators")
+    lab = {b["name"]: b for b in duke.bodies if (b.get("impl_ty") or "").endswith("class_reader::labels::Labels") and b.get("name")}
+    for name, op_reject in (("get_or_create", ">="), ("create", ">="), ("get_or_create_check_exclusive", ">")):
+        b = lab.get(name)
+        if not R.anchor("R01.12", "fn Labels::" + name, b):
+            continue
+        guards = []
+        for n in H.walk(b["body"]):
+            if n.get("k") == "if" and H.diverges(n["then"]) and H.is_err_exit(n["then"]):
+                c = H.peel(n["cond"], refs=False)
+                if c.get("k") == "bin" and any(fn == "code_length" for _, fn in H.field_accesses(c)):
+                    l_is_cl = any(fn == "code_length" for _, fn in H.field_accesses(c["l"]))
+                    op = c["op"]
+                    if l_is_cl:
+                        op = {"<": ">", "<=": ">=", ">": "<", ">=": "<=", "==": "==", "!=": "!="}.get(op, op)
+                    guards.append(op)
+        R.inst("R01.12", "labels-check:%s" % name, guards == [op_reject], sp=b["sp"], expect="reject when pc %s code_length" % op_reject, got=guards)
+    gr = lab.get("get_or_create_range")
+    if R.anchor("R01.12", "fn Labels::get_or_create_range", gr):
+        lits = [n for n in H.walk(gr["body"]) if n.get("k") == "struct" and (n.get("adt") or "").endswith("LabelRange")]
+        ok = False
+        got = None
+        if len(lits) == 1:
+            f = {x["name"]: x["e"] for x in lits[0]["fields"]}
+            s_call = [H.callee_name(x) for x in H.walk(f.get("start", {})) if x.get("k") == "mcall" and (x.get("callee") or {}).get("path", "").startswith("duke::class_reader::labels")]
+            e_call = [H.callee_name(x) for x in H.walk(f.get("end", {})) if x.get("k") == "mcall" and (x.get("callee") or {}).get("path", "").startswith("duke::class_reader::labels")]
+            got = {"start": s_call, "end": e_call}
+            ok = s_call == ["get_or_create"] and e_call == ["get_or_create_check_exclusive"]
+        R.inst("R01.12", "range:start-inclusive-end-exclusive", ok, sp=gr["sp"], got=got,
+               expect={"start": ["get_or_create"], "end": ["get_or_create_check_exclusive"]})
+    rc = duke.fn("read_code")
+    if R.anchor("R01.12", "fn read_code", rc):
+        lits = [n for n in H.walk(rc["body"]) if n.get("k") == "struct" and (n.get("adt") or "").endswith("code::Exception")]
+        if R.anchor("R01.12", "Exception literal in read_code", len(lits) == 1, sp=rc["sp"]):
+            want = {"start": "get_or_create", "end": "get_or_create_check_exclusive", "handler": "get_or_create"}
+            for fld in lits[0]["fields"]:
+                if fld["name"] not in want:
+                    continue
+                calls = [H.callee_name(x) for x in H.walk(fld["e"]) if x.get("k") == "mcall" and (x.get("callee") or {}).get("path", "").startswith("duke::class_reader::labels")]
+                R.inst("R01.12", "exception_table.%s" % fld["name"], calls == [want[fld["name"]]], sp=fld["e"]["sp"], expect=want[fld["name"]], got=calls,
+                       detail="JVMS 4.7.3: start_pc and handler_pc are instruction offsets, end_pc is exclusive and may equal code_length")
+    R.floor("R01.12", 7)
